@@ -6,6 +6,86 @@ from harness import threads_c04 as T
 from harness import sched as S
 
 
+class Bag(object):
+    """attribute bag: unknown attributes raise KeyError, not AttributeError"""
+    def __init__(self, n):
+        self.__dict__['_data'] = {'a': n, 'b': [n]}
+
+    def __getattr__(self, name):
+        if name == '_data':
+            raise AttributeError(name)
+        return self._data[name]
+
+
+class Proxy(object):
+    """remote proxy: unknown public attributes raise RuntimeError"""
+    def __init__(self, n):
+        self.v = n
+
+    def __getattr__(self, name):
+        if name.startswith('__') or name == 'v':
+            raise AttributeError(name)
+        raise RuntimeError('remote attribute %s' % name)
+
+
+class NoBool(object):
+    def __init__(self, n):
+        self.v = n
+
+    def __bool__(self):
+        raise ValueError('the truth value is ambiguous')
+
+
+class NoEq(object):
+    def __init__(self, n):
+        self.v = n
+
+    def __eq__(self, other):
+        raise TypeError('not comparable')
+    __hash__ = object.__hash__
+
+
+class NoLen(object):
+    def __init__(self, n):
+        self.v = n
+
+    def __len__(self):
+        raise TypeError('no length')
+
+
+class NoRepr(object):
+    def __init__(self, n):
+        self.v = n
+
+    def __repr__(self):
+        raise RuntimeError('no repr')
+    __str__ = __repr__
+
+
+class NoHash(object):
+    def __init__(self, n):
+        self.v = n
+
+    def __eq__(self, other):
+        return isinstance(other, NoHash) and other.v == self.v
+
+
+class NoGetState(object):
+    def __init__(self, n):
+        self.v = n
+
+    def __getstate__(self):
+        raise RuntimeError('state is not available')
+
+
+class OddError(Exception):
+    pass
+
+
+ODD = {'bag': Bag, 'proxy': Proxy, 'nobool': NoBool, 'noeq': NoEq, 'nolen': NoLen, 'norepr': NoRepr, 'nohash': NoHash,
+       'nogetstate': NoGetState}
+
+
 class C04(RecorderProp):
     ID = 'C04'
     RULE = ('random histories of operations on one recorder with every tolerated fault kind (key cannot be built, input/output '
@@ -14,7 +94,9 @@ class C04(RecorderProp):
             'enabled / disabled / class skipped, the kill switch flipped mid-operation (also by the main thread while worker interceptions '
             'are in flight), on memory / file / S3 cassettes and through the asynchronous wrapper; each run is executed decorated and as an '
             'undecorated twin; plus worker-thread scenarios (1-2 workers making intercepted calls while the main thread returns / '
-            'discards / joins) under the controlled scheduler: every schedule with <= 2 pre-emptions at line granularity inside '
+            'discards / joins) under the controlled scheduler, one-shot values (iterators, streams) and values whose special methods misbehave '
+            '(attribute bags raising KeyError, remote proxies, ambiguous truth values, failing __eq__/__len__/__repr__/__getstate__, unhashable) as '
+            'results, arguments, operation results and exception payloads with and without copy-on-interception: every schedule with <= 2 pre-emptions at line granularity inside '
             'tape_recorder.py (bounded by a run budget) and random schedules; non-trivial = at least one run with an intercepted '
             'call; distinct = distinct canonical case')
     OPTS = dict(ALL_OPTS, play_ratio=0.1, cassettes=['memory', 'memory', 'file', 's3', 'async'], enabled_ratio=0.8)
@@ -33,6 +115,10 @@ class C04(RecorderProp):
                 for site in ('in', 'out'):
                     cases.append({'kind': 'iter', 'model': False, 'iter': kind, 'copy': copy, 'site': site,
                                   'data': [rng.randint(0, 9) for _ in range(rng.randint(1, 4))], 'partly': rng.random() < 0.5})
+        for kind in self.ODD_KINDS:
+            for copy in (False, True):
+                for site in self.ODD_SITES:
+                    cases.append({'kind': 'odd', 'model': False, 'odd': kind, 'copy': copy, 'site': site, 'n': rng.randint(0, 9)})
         for i in range(self.THREAD_SCENARIOS[tier]):
             base = T.gen_base(rng)
             # every schedule with at most k pre-emptions (bounded by max_runs), explored inside run_impl
@@ -40,6 +126,52 @@ class C04(RecorderProp):
             for _ in range(self.THREAD_RANDOM[tier] // self.THREAD_SCENARIOS[tier]):
                 cases.append(dict(base, rand=rng.randrange(10 ** 9)))
         return cases
+
+    # -- values whose special methods misbehave (attribute bags, remote proxies, array-like truth values ...) -----------------
+    ODD_KINDS = ['bag', 'proxy', 'nobool', 'noeq', 'nolen', 'norepr', 'nohash', 'nogetstate']
+    ODD_SITES = ['in', 'out', 'inarg', 'outarg', 'ret', 'raise']
+
+    @staticmethod
+    def make_odd(kind, n):
+        return ODD[kind](n)
+
+    def run_odd_case(self, case):
+        from playback.tape_recorder import TapeRecorder, RecordingParameters
+        from playback.tape_cassettes.in_memory.in_memory_tape_cassette import InMemoryTapeCassette
+        tr = TapeRecorder(InMemoryTapeCassette())
+        tr.enable_recording()
+        kind, site, n = case['odd'], case['site'], case['n']
+
+        def body(self_):
+            seen = [self_.plain(n)]
+            if site in ('inarg', 'outarg'):
+                seen.append(self_.fetch(ODD[kind](n)))
+            elif site in ('in', 'out'):
+                seen.append(type(self_.fetch()).__name__)
+            seen.append(self_.plain(n + 1))
+            if site == 'ret':
+                return ODD[kind](n)
+            if site == 'raise':
+                raise OddError(ODD[kind](n))
+            return seen
+
+        def fetch(self_, *a):
+            return ODD[kind](n) if not a else n
+
+        def plain(self_, x):
+            return x * 2
+        deco = tr.intercept_input('fetch') if site in ('in', 'inarg') else tr.intercept_output('fetch')
+        Op = type('OddOp', (object,), {'execute': tr.operation()(body), 'fetch': deco(fetch), 'plain': tr.intercept_input('plain')(plain)})
+        tr.recording_params(RecordingParameters(copy_data_on_intercepion=case['copy']))(Op)
+        Twin = type('OddTwin', (object,), {'execute': body, 'fetch': fetch, 'plain': plain})
+
+        def end_of(thunk):
+            try:
+                r = thunk()
+                return ['ret', type(r).__name__ if site == 'ret' else r]
+            except Exception as ex:
+                return ['exc', type(ex).__name__]
+        return {'end': end_of(lambda: Op().execute()), 'twinEnd': end_of(lambda: Twin().execute())}
 
     # -- one-shot values: an intercepted function hands its caller an iterator / generator / stream -------------------------
     ITER_KINDS = ['generator', 'list_iterator', 'reversed', 'map', 'zip', 'stringio', 'dict_items_iter']
@@ -93,6 +225,8 @@ class C04(RecorderProp):
     def run_impl(self, case):
         if case.get('kind') == 'iter':
             return self.run_iter_case(case)
+        if case.get('kind') == 'odd':
+            return self.run_odd_case(case)
         if case.get('kind') != 'threads':
             return super(C04, self).run_impl(case)
         want = T.expected(case)
@@ -122,7 +256,7 @@ class C04(RecorderProp):
         return out
 
     def model_requests(self, case):
-        if case.get('kind') == 'iter':
+        if case.get('kind') in ('iter', 'odd'):
             return []
         if case.get('kind') != 'threads':
             return super(C04, self).model_requests(case)
@@ -133,7 +267,7 @@ class C04(RecorderProp):
                  'schedule': [rnd.randrange(n + 1) for _ in range(40)]}]
 
     def model_transcript(self, case, answers):
-        if case.get('kind') == 'iter':
+        if case.get('kind') in ('iter', 'odd'):
             return None
         if case.get('kind') != 'threads':
             return super(C04, self).model_transcript(case, answers)
@@ -143,7 +277,7 @@ class C04(RecorderProp):
         return {'results': a['results'], 'main': [['ret', 'done']], 'outcome': 'finished'}
 
     def impl_view(self, case, impl):
-        if case.get('kind') == 'iter':
+        if case.get('kind') in ('iter', 'odd'):
             return None
         if case.get('kind') != 'threads':
             return super(C04, self).impl_view(case, impl)
@@ -151,20 +285,22 @@ class C04(RecorderProp):
                 'outcome': impl['outcome']}
 
     def sample_repr(self, case):
-        if case.get('kind') in ('threads', 'iter'):
+        if case.get('kind') in ('threads', 'iter', 'odd'):
             return case
         return super(C04, self).sample_repr(case)
 
     def features(self, case, impl):
         if case.get('kind') == 'iter':
             return ['one-shot-value:' + case['iter']]
+        if case.get('kind') == 'odd':
+            return ['odd-value:' + case['odd'], 'odd-value-site:' + case['site']]
         if case.get('kind') != 'threads':
             return super(C04, self).features(case, impl)
         return ['threads', 'threads:main=' + case['main'], 'threads:schedules-explored=%d' % impl.get('_explored', 1)] + \
                (['threads:exhaustive<=%d-preemptions' % case['explore']] if case.get('explore') is not None else ['threads:random-schedule'])
 
     def shrink(self, case):
-        if case.get('kind') == 'iter':
+        if case.get('kind') in ('iter', 'odd'):
             return []
         if case.get('kind') != 'threads':
             return super(C04, self).shrink(case)
@@ -176,6 +312,11 @@ class C04(RecorderProp):
                 return ['one-shot value (%s from an intercepted %s, copy_data_on_intercepion=%s): the decorated operation saw %r, '
                         'the undecorated twin %r' % (case['iter'], 'input' if case['site'] == 'in' else 'output', case['copy'],
                                                      impl['end'], impl['twinEnd'])]
+            return []
+        if case.get('kind') == 'odd':
+            if impl['end'] != impl['twinEnd']:
+                return ['a value whose special methods misbehave (%s, as %s, copy_data_on_intercepion=%s): the decorated operation ended '
+                        '%r, the undecorated twin %r' % (case['odd'], case['site'], case['copy'], impl['end'], impl['twinEnd'])]
             return []
         if case.get('kind') == 'threads':
             want = T.expected(case)
@@ -206,7 +347,7 @@ class C04(RecorderProp):
         return None
 
     def nontrivial(self, case, impl):
-        if case.get('kind') in ('threads', 'iter'):
+        if case.get('kind') in ('threads', 'iter', 'odd'):
             return True
         return any(r['journal'] for r in impl if 'journal' in r)
 
